@@ -15,6 +15,7 @@ import OdmlModel.Props.C09
 import OdmlModel.Proofs.XmlRoundTree
 import OdmlModel.Proofs.XmlRoundDenote
 import OdmlModel.Proofs.XmlRoundWritten
+import OdmlModel.Proofs.XmlRefuse
 
 set_option linter.unusedSimpArgs false
 
@@ -228,8 +229,11 @@ theorem writer_keys_readable :
 
 /-- Characters lxml refuses make the writer raise instead of writing something else. -/
 theorem xml_unrepresentable_chars (d : DocT) (h : xmlOk (writeTree d) = false) :
-    writeXml d = .error .valueError := by
-  simp [writeXml, h]
+    writeXml d = .error .valueError ∨ writeXml d = .error .parser := by
+  simp only [writeXml]
+  split
+  · exact Or.inr rfl
+  · simp [h]
 
 /-! ## 4. Where the code does not satisfy the property (known findings): witnesses -/
 
@@ -284,15 +288,23 @@ def pTup : PropT :=
   { defaultProp with id := some u3, name := some "p".toList,
                      values := [.tuple ["a,b".toList, "c".toList]], dtype := some "2-tuple".toList }
 
-/-- A 2-tuple item `a,b` is written unquoted; the strict reader refuses the file, the lenient
-    reader replaces the Property by an empty default Property. -/
-theorem tuple_item_counterexample :
+/-- A 2-tuple item `a,b` cannot be carried by the bracketed text: the writer refuses the document
+    with `ParserException` (fix fc8b891; fixed finding `tuple_item_with_separator`). The text it
+    wrote before, `[(a,b;c)]`, is taken apart at the comma by `from_csv`; the strict reader
+    refused that file, the lenient reader replaced the Property by an empty default Property. -/
+theorem tuple_item_refused :
     wfDoc idLib (docWith [secWith u2 "s" [pTup]]) = true ∧
+    docRefused (docWith [secWith u2 "s" [pTup]]) = true ∧
     view (readXml .strict idLib (writeTree (docWith [secWith u2 "s" [pTup]]))) = .error .parser ∧
     view (readXml .lenient idLib (writeTree (docWith [secWith u2 "s" [pTup]]))) =
       .ok [⟨some "s".toList, [⟨none, none, [], none⟩]⟩] ∧
     valueText pTup = "[(a,b;c)]".toList ∧
     fromCsv (valueText pTup) = .ok ["(a".toList, "b;c)".toList] := by decide
+
+theorem tuple_item_refused_raises :
+    writeXml (docWith [secWith u2 "s" [pTup]]) = .error .parser := by
+  have h : docRefused (docWith [secWith u2 "s" [pTup]]) = true := by decide
+  simp [writeXml, h]
 
 /-- Siblings `a` and `a ` are both written; the strict reader refuses the file it was given by
     the writer, the lenient reader loses the second sibling. -/
@@ -357,8 +369,10 @@ theorem xml_save_load (m : Mode) (lib : TokLib) (d : DocT) (x : X) (hwf : wfDoc 
   have : x = writeTree d := by
     simp only [writeXml] at hx
     split at hx
-    · cases hx; rfl
     · cases hx
+    · split at hx
+      · cases hx; rfl
+      · cases hx
   rw [this]
   exact doc_round m lib d hwf hrepr hlow
 
@@ -501,5 +515,32 @@ example : denote idLib (.elem "odML" [("version", "1.1".toList)] none
     [.elem "colour" [] (some "a".toList) []]) = none := by decide
 example : denote idLib (.elem "odML" [("version", "1.1".toList)] none
     [.elem "section" [] none [.elem "type" [] (some "t".toList) []]]) = none := by decide
+
+/-! ## 7. Never written in altered form: refused, or the round trip -/
+
+/-- For every valid document (`wfDoc`, `docLower`) whose names and uncertainties are representable
+    (`xmlReprN`: the three remaining open findings excluded) the writer either raises - with
+    `ParserException` for an n-tuple item holding a comma or a line break (`docRefused`), with
+    lxml's `ValueError` for a character XML cannot hold - and writes nothing, or what it wrote
+    loads back, in both reader modes, to the very document up to trimming, without a warning. -/
+theorem xml_roundtrip_or_refused (m : Mode) (lib : TokLib) (d : DocT) (hwf : wfDoc lib d = true)
+    (hn : xmlReprN d = true) (hlow : docLower d = true) :
+    (∃ e, writeXml d = .error e) ∨
+    (∃ x, writeXml d = .ok x ∧ readXml m lib x = .ok (trimDoc d, 0)) := by
+  cases hnr : docRefused d with
+  | true => exact Or.inl ⟨.parser, by simp [writeXml, hnr]⟩
+  | false =>
+    cases hok : xmlOk (writeTree d) with
+    | false => exact Or.inl ⟨.valueError, by simp [writeXml, hnr, hok]⟩
+    | true =>
+      refine Or.inr ⟨writeTree d, by simp [writeXml, hnr, hok], ?_⟩
+      have hx : writeXml d = .ok (writeTree d) := by simp [writeXml, hnr, hok]
+      exact xml_save_load m lib d _ hwf (xmlRepr_of_not_refused lib d hwf hn hnr) hlow hx
+
+/-- The refusal is exact: on valid documents the writer's `ParserException` is raised precisely
+    for the documents the bracketed tuple text cannot carry. -/
+theorem xml_refused_iff_not_repr (lib : TokLib) (d : DocT) (hwf : wfDoc lib d = true)
+    (hn : xmlReprN d = true) : docRefused d = false ↔ xmlRepr d = true :=
+  ⟨xmlRepr_of_not_refused lib d hwf hn, not_refused_of_xmlRepr d⟩
 
 end C01
